@@ -378,7 +378,7 @@ func genCfg(r *rt.Rand) fcfg {
 		MaxDurMS: rt.Pick(r, []int{0, 0, 0, 30}),
 		TSOnly:   r.Bool(),
 		Mode:     rt.Pick(r, []os.FileMode{0, 0, 0o600, 0o640, 0o644, 0o666, 0o660, 0o664, 0o622}),
-		FileName: rt.Pick(r, []string{"audit.log", "audit.log", "audit", "ev.json"}),
+		FileName: rt.Pick(r, []string{"audit.log", "audit.log", "audit", "ev.json", "catalog.log", "session.json", "a.b.log"}),
 		SubDir:   r.Intn(6) == 0,
 		Format:   rt.Pick(r, []string{"", "", "cloudevents-json"}),
 	}
